@@ -130,6 +130,9 @@ def worker(args, scratch):
                     continue
                 method = r.choice(gen_http.METHODS)
                 target = gen_rbac.gen_url(r)
+                if r.random() < 0.15:
+                    # the two uploads that are exempt from signing (and get the large body limit) are not exempt from this check
+                    method, target = r.choice([("PUT", "/vmAgentLog"), ("POST", "/machine/?comp=telemetrydata"), ("PUT", "/VMAGENTLOG"), ("POST", "/Machine/?Comp=TelemetryData")])
                 if kind == "ne-ws": dest, ident = "wireserver", who
                 elif kind == "ne-hga": dest, ident = "hostga", who
                 elif kind == "self": dest, ident = "self", r.choice(callers + [root])
@@ -218,3 +221,8 @@ def run(tier, rep):
     if rep.coverage.get("control_forwarded", 0) == 0 and not rep.violations:
         rep.inconclusive.append("no control request was forwarded (harness problem)")
     rep.assumptions += ["hook H1 stands in for the kernel audit map"]
+    # who counts as elevated is decided in the eBPF program (the is_root bit of the kernel record): a slice of the C06 engine (ASan model +
+    # real kernel, processes with uid != 0 / gid 0 and uid 0 / gid != 0) judges that bit
+    from . import c06
+    c06.ebpf_slice(tier, rep, keep=("is_root", "uid-taken-from-gid", "record-wrong:uid", "pending-record-wrong"), nworlds=300 if tier == "quick" else 3000, kernel=True,
+                   label="elevation bit of the kernel record")
